@@ -313,3 +313,14 @@ Qed.
 
 Lemma in_mint_range_int z : in_mint_range z -> int_in_range z = true /\ z <> int_min.
 Proof. unfold in_mint_range, mint_min, int_max, int_min. intros H. split; [apply int_in_range_iff|]; unfold two64Z in *; lia. Qed.
+
+(* ---- the JSON number written for a metadata integer denotes it exactly (or the conversion is an explicit error) ---- *)
+Theorem meta_int_to_json_exact z t : meta_int_to_json z = Ok t -> parse_i128 t = Ok z.
+Proof.
+  unfold meta_int_to_json. assert (two64Z < two127) by reflexivity. assert (- two127 < - two63) by reflexivity.
+  destruct (0 <=? z) eqn:S.
+  - destruct (z <? two64Z) eqn:B; [|discriminate]. intros [= <-]. apply parse_i128_print. lia.
+  - destruct (- two63 <=? z) eqn:B; [|discriminate]. intros [= <-]. apply parse_i128_print. lia.
+Qed.
+Lemma meta_int_to_json_total z : meta_int_to_json z = Err \/ exists t, meta_int_to_json z = Ok t.
+Proof. unfold meta_int_to_json. destruct (0 <=? z); [destruct (z <? two64Z) | destruct (- two63 <=? z)]; eauto. Qed.
